@@ -530,3 +530,105 @@ func FuzzC20Flow(f *testing.F) {
 		fuzzJudge(t, "C20", "flow", fl)
 	})
 }
+
+// ---------------------------------------------------------------- C10 / C11
+
+// moneyFromBlob carves a P2PKH-funded transaction (inputs unsigned or carrying
+// an unlocking script of a signed input's size; outputs P2PKH, data-carrier,
+// template instances, other) and a quote inside the documented domain.
+func moneyFromBlob(blob []byte, nIns, nOuts uint8, q [4]uint16) (mTx, mQuote) {
+	take := func(n int) []byte {
+		out := make([]byte, n)
+		k := copy(out, blob)
+		blob = blob[k:]
+		return out
+	}
+	u64 := func() uint64 {
+		b := take(8)
+		var v uint64
+		for k := 0; k < 8; k++ {
+			v |= uint64(b[k]) << (8 * k)
+		}
+		return v
+	}
+	r := prng.New(uint64(len(blob))+uint64(nIns)<<8, "money-fuzz", 0)
+	t := mTx{Version: 1}
+	for i := 0; i < int(nIns%5); i++ {
+		in := gen.In{TxID: take(32), Vout: uint32(take(1)[0]), Seq: 0xffffffff, PrevSats: u64() % 2_000_000_000_000, PrevScript: gen.P2PKH(take(20)), Unlock: []byte{}}
+		if l := int(take(1)[0]); l%4 == 1 {
+			in.Unlock = take([]int{106, 107, 108}[l/4%3])
+		}
+		t.Ins = append(t.Ins, in)
+	}
+	for i := 0; i < int(nOuts%6); i++ {
+		sats := u64() % 2_000_000_000_000
+		k := take(2)
+		var sc []byte
+		switch k[0] % 6 {
+		case 0, 1:
+			sc = gen.P2PKH(take(20))
+		case 2:
+			sc = append([]byte{0x6a}, gen.Push(take(int(k[1])%100))...)
+			sats %= 3
+		case 3:
+			sc = append([]byte{0x00, 0x6a}, gen.Push(take(int(k[1])*2))...)
+			sats %= 3
+		case 4:
+			sc = gen.StandardScript(r)
+		default:
+			sc = take(int(k[1]) % 60)
+			if len(sc) > 0 && (sc[0] == 0x6a || (sc[0] == 0 && len(sc) > 1 && sc[1] == 0x6a)) {
+				sc[0] = 0x51
+			}
+		}
+		t.Outs = append(t.Outs, mOuts{Sats: sats, Script: sc})
+	}
+	mq := mQuote{StdSat: int(q[0]), StdBytes: 1 + int(q[1])%2000, DataSat: int(q[2]), DataBytes: 1 + int(q[3])%2000}
+	return t, mq
+}
+
+func FuzzC11Account(f *testing.F) {
+	r := prng.New(1, "fuzz-seeds-c11", 0)
+	for i := 0; i < 24; i++ {
+		f.Add(r.Bytes(60+r.Intn(400)), uint8(1+i%4), uint8(i%6), uint16(5), uint16(99), uint16(i), uint16(i*7))
+	}
+	f.Fuzz(func(t *testing.T, blob []byte, nIns, nOuts uint8, a, b, c2, d uint16) {
+		if len(blob) > 4000 {
+			t.Skip()
+		}
+		tx, q := moneyFromBlob(blob, nIns, nOuts, [4]uint16{a, b, c2, d})
+		if !q.inDomain() {
+			t.Skip()
+		}
+		fuzzJudge(t, "C11", "account", &c11In{Tx: tx, Quote: q, Rel: "coverage-guided", Class: "coverage-guided"})
+	})
+}
+
+func FuzzC10Change(f *testing.F) {
+	r := prng.New(1, "fuzz-seeds-c10", 0)
+	for i := 0; i < 24; i++ {
+		f.Add(r.Bytes(60+r.Intn(400)), uint8(1+i%4), uint8(i%6), uint16(5), uint16(99), uint16(i), uint16(i*7), uint16(i*31))
+	}
+	f.Fuzz(func(t *testing.T, blob []byte, nIns, nOuts uint8, a, b, c2, d, dest uint16) {
+		if len(blob) > 4000 || nIns%5 == 0 {
+			t.Skip()
+		}
+		tx, q := moneyFromBlob(blob, nIns, nOuts, [4]uint16{a, b, c2, d})
+		if !q.inDomain() {
+			t.Skip()
+		}
+		in := &c10In{Tx: tx, Quote: q, Rel: "coverage-guided"}
+		switch dest % 3 {
+		case 0:
+			in.Dest = c10Dest{Kind: "script", Script: gen.P2PKH(bytesOf(byte(dest>>8), 20))}
+		case 1:
+			in.Dest = c10Dest{Kind: "script", Script: bytesOf(0x51, 1+int(dest>>2)%300)}
+		default:
+			if len(tx.Outs) == 0 {
+				t.Skip()
+			}
+			in.Dest = c10Dest{Kind: "index", Index: uint(int(dest>>2) % len(tx.Outs))}
+		}
+		fuzzJudge(t, "C10", "change", in)
+	})
+}
